@@ -44,7 +44,9 @@ class Req:
 
     def to_json(self, model=None):
         def b(es):
-            return (model_bytes(model, es) if model is not None else bytes(e.v for e in es))
+            if model is not None:
+                return model_bytes(model, es)
+            return bytes((e.v if not e.sym else z3.simplify(e.v).as_long()) for e in es)
         uri = b(self.path).decode('latin-1')
         if self.query is not None:
             uri += '?' + b(self.query).decode('latin-1')
